@@ -21,7 +21,14 @@ static Outcome runCase(const KV& c)
     const int its      = s->numberOfIterations();
     const int nl       = GMGPolarVerifAccess::numberOfLevels(*s);
     const bool tolOn   = cfg.abs_tol > 0 || cfg.rel_tol > 0;
-    const bool rateDomain = g.nr() >= 17 && g.ntheta() >= 32 && cfg.pre >= 1 && cfg.post >= 1 && cfg.extrapolation != 2 && cfg.problem != 3;
+    // grids from files (non-power-of-two angular divisions, non-uniform spacing): the truth of a reported stop is judged as
+    // always; the convergence-rate statement is judged on uniform file grids without extrapolation only (implicit
+    // extrapolation presupposes the midpoint hierarchy the parametric constructor builds)
+    const bool fileGridOutsideRateDomain = cfg.grid_kind >= 4 || (cfg.grid_kind > 0 && cfg.extrapolation != 0);
+    if (cfg.grid_kind > 0)
+        o.cls("grid_from_files_kind_" + std::to_string(cfg.grid_kind));
+    const bool rateDomain = g.nr() >= 17 && g.ntheta() >= 24 && cfg.pre >= 1 && cfg.post >= 1 && cfg.extrapolation != 2 && cfg.problem != 3 &&
+                            !fileGridOutsideRateDomain && (cfg.grid_kind > 0 || g.ntheta() >= 32);
     o.signature  = cfg.sig();
     o.nontrivial = its >= 3 && nl >= 2;
     o.cls("extrapolation_" + std::to_string(cfg.extrapolation));
@@ -216,6 +223,14 @@ static KV genCase()
     if (s.max_levels > 0 && tot - (s.max_levels - 1) > 5)
         s.max_levels = tot - 4;
     s.via_cli = rint(0, 1);
+    if (rint(0, 5) == 0) {
+        // a grid loaded from files; the parametric options are then irrelevant
+        s.grid_kind = rint(1, 5);
+        s.aniso     = 0;
+        s.div       = 0;
+        if (s.max_levels > 3)
+            s.max_levels = -1;
+    }
     s.put(c);
     return c;
 }
